@@ -26,7 +26,7 @@ ASSUMPTIONS = ["the wall colour is opaque black in both modes (gray map at -1 wi
 NSHARDS = {"quick": 16, "thorough": 16}
 THRESHOLDS = {"quick": {"c20:plots": 1200, "c20:kind:LatticeMaze": 200, "c20:kind:TargetedLatticeMaze": 200, "c20:kind:SolvedMaze": 200,
                         "c20:with-values": 300, "c20:without-values": 300, "c20:strips-checked": 20000, "c20:blocks-checked": 10000,
-                        "c20:true-path": 500, "c20:predicted-path": 500, "c20:ascii": 1200, "c20:ascii-with-options": 3600, "c20:oblong": 100,
+                        "c20:true-path": 500, "c20:predicted-path": 500, "c20:ascii": 1200, "c20:callers-path-arrays-overwritten-before-plot": 300, "c20:ascii-with-options": 3600, "c20:oblong": 100,
                         **{f"c20:ul:{u}": 100 for u in (3, 4, 5, 9, 14, 19, 31)}, "c20:int8-paths": 300, "c20:values-contain-minus-one": 200, "c20:negative-values": 50, "c20:constant-values": 50,
                         "c20:replots": 900, "c20:many-predicted-paths": 100, "c20:predicted-paths-sharing-a-label": 60, "c20:rejected-values-call": 200, "c20:drawn-images": 2000, "c20:replot-plain-after-values": 300, "c20:detour-solution": 30}}
 THRESHOLDS["thorough"] = dict(THRESHOLDS["quick"])
@@ -253,9 +253,12 @@ def run(ctx):
                         raise
                     except Exception:  # noqa: BLE001
                         ctx.tally("c20:rejected-values-call")
+                handed_over = []   # the caller's own arrays, re-used by the caller after the paths were added (see below)
                 if extra_true is not None:
                     if j % 4 == 0:
-                        mp.add_true_path(np.array(extra_true, dtype=pdt))
+                        arr_t = np.array(extra_true, dtype=pdt)
+                        mp.add_true_path(arr_t)
+                        handed_over.append(arr_t)
                     else:
                         mp.add_true_path([tuple(p) for p in extra_true])
                 shared_fmt = None
@@ -266,12 +269,19 @@ def run(ctx):
                     ctx.tally("c20:predicted-paths-sharing-a-label")
                 for t, p in enumerate(preds):
                     arg = np.array(p, dtype=pdt) if t % 2 == 0 else [tuple(x) for x in p]
+                    if isinstance(arg, np.ndarray):
+                        handed_over.append(arg)
                     if shared_fmt is None:
                         mp.add_predicted_path(arg)
                     elif shared_fmt == "kw":
                         mp.add_predicted_path(arg, label="rollout")
                     else:
                         mp.add_predicted_path(arg, path_fmt=shared_fmt)
+                if j % 2 == 0 and handed_over:
+                    # a path is the list of cells it had when it was added: the caller's buffers are overwritten before plotting
+                    for arr_h in handed_over:
+                        arr_h[...] = arr_h[::-1].copy() if len(arr_h) > 1 and j % 4 == 0 else 0
+                    ctx.tally("c20:callers-path-arrays-overwritten-before-plot")
                 mp.plot()
                 fig = mp.fig
                 ax = mp.ax
